@@ -54,6 +54,10 @@ C = {
    "Kernel-checked on the fragment of Scan/GoTypes.v (strings, booleans, integers of every width, pointers, slices, arrays, string-keyed maps, nested structs, json names and omitempty; any depth): every value of a model type, with nil only in pointer or omitempty struct fields, is encoded by encoding/json as a document the scanned definition accepts (C16_encoding_accepted); every document the definition accepts decodes into the type (C16_accepted_decodes); the JSON keys of the encoding are property names of the definition (C16_keys); the nil hypothesis is shown necessary (C16_refuted_nil_slice = known finding). Tie, every run: ~180 generated model types are compiled; codescan.Run scans them; a reflection driver marshals zero/full/max/min/empty/random values and decodes 28 mutated documents per type; model scan/encode/sval/decodes vs the scanned definition, the real encodings, the reference verdicts and the real decoding verdicts. Outside the fragment (floats, time.Time, named types, ,string, embedded structs, interface{}, RawMessage, []byte) the property oracle runs on the implementation only.",
    "proof on fragment (Coq 8.16) + compiled-type correspondence + encode/validate/decode oracle",
    "Modelled: codescan/schema.go buildFromType/buildFromStruct/parseJSONTag and swaggerSchemaForType on the fragment, encoding/json Marshal and Unmarshal acceptance. Dependencies: go/packages loading, encoding/json, Go compiler."),
+ "C18": ("proof", "5.18", "rocq-scan",
+   "PARTIAL. Kernel-checked for every set of property-level validations with integer values (Required, Read Only, Maximum/Minimum with either exclusivity, Multiple Of, Max/Min Length, Pattern not starting with a blank, Max/Min Items, Unique): the lines the model template writes above a struct field are read back by the scanner's recognisers as exactly the same validations, and distinct validation sets give distinct comments (C18_vocabulary_roundtrip, C18_vocabulary_injective); the excluded pattern case is refuted on the model and is a known finding. Tie, every run: the vocabulary lines of the generated field comments vs emit, the scanned validations vs parse of those lines (~100 catalogue properties). The property's own observable runs on the implementation: one document of ~140 catalogued properties (every bound/exclusivity/format combination, enums with escapes, items, maps, aliases, nested objects) plus random definitions -> swagger generate model -> codescan.Run -> keyword-by-keyword comparison of every schema (numbers numerically, required as a set, references by target).",
+   "proof of the doc-comment vocabulary round trip (Coq 8.16) + template/scanner correspondence + whole-document round-trip oracle",
+   "Modelled: generator/templates/validation/structfield.gotmpl, codescan/regexprs.go + set* parsers for the same keywords. Exercised only: enums, formats, types, $ref structure, alias/items/map-value constraints, allOf/discriminator annotations."),
  "C19": ("proof", "5.19", "rocq-yaml",
    "Kernel-checked for integers of any size: the decimal text both renderings share parses back to the same integer and is injective (no 2^53 cliff), tied to Go's rendering by a correspondence run. PARTIAL: YAML block structure and the scalar quoting rules of yaml.v3 / swag.JSONMapSlice are dependencies, exercised rather than modelled: every spec-emitting command (flatten, expand, mixin, generate spec, init spec) x {json,yaml} input x {json,yaml} output x compact/pretty on documents carrying every class of ambiguous scalar; YAML outputs reloaded with the loader go-swagger itself uses and compared as exact JSON values.",
    "proof (Coq 8.16, integer text) + exhaustive-by-class CLI differential oracle",
